@@ -249,7 +249,7 @@ def sig_has_varargs(sig):
 
 
 SIGS = ['x', 'x, y=2', 'x, y', 'x, *args', '*args', 'x, y=2, **kw', 'x, y=2, *args, **kw',
-        'x, *, k=1']
+        'x, *, k=1', 'self, y=2', 'func, ignored=2']      # (the last two: names klepto's own machinery uses)
 
 # values: no two of them are ==-equal with different type/repr (merging by an untyped
 # keymap is C10's subject, not the cache engine's); no '/', no NaN, no address reprs.
